@@ -948,9 +948,9 @@ Proof.
   rewrite (include_like_conv k t v Wv). now apply IH.
 Qed.
 
-Theorem run_markdown_enc kvs :
+Theorem run_markdown_enc kvs extra :
   Forall wt_typed kvs -> nodup_strs (map fst kvs) = true ->
-  run_markdown (enc_md_all kvs) = do st <- construct (conv_all kvs); Ok (st, []).
+  run_markdown (enc_md_all kvs) extra = do st <- construct (kw_update (conv_all kvs) extra); Ok (st, []).
 Proof.
   intros W N. unfold run_markdown. rewrite (meta_enc_md_all kvs W N), (convert_meta_all kvs W).
   cbn [bind fst snd]. now rewrite (include_like_all kvs W).
@@ -979,7 +979,6 @@ Definition schema_ok : bool :=
                                      end
                        | _ => true
                        end) project_schema
-  && forallb (fun k => sin k schema_names) config_sensitive
   && match construct [] with Ok _ => true | _ => false end.
 
 Lemma schema_ok_true : schema_ok = true.
@@ -997,7 +996,7 @@ Lemma schema_field_facts f : In f project_schema ->
   name_ok (f_name f) = true /\ field_ty (f_name f) = Some (f_ty f).
 Proof.
   intros Hin. pose proof schema_ok_true as S. unfold schema_ok in S.
-  apply andb_true_iff in S as [S _]. apply andb_true_iff in S as [S _].
+  apply andb_true_iff in S as [S _].
   apply andb_true_iff in S as [S _]. apply andb_true_iff in S as [S S3].
   apply andb_true_iff in S as [S1 _].
   split.
@@ -1022,11 +1021,48 @@ Proof.
 Qed.
 
 (* ------------------------------------------------------------------ markdown = fpm.toml *)
-Lemma effective_load_eq i1 i2 :
-  load_settings (i_lines i1) (i_toml i1) = load_settings (i_lines i2) (i_toml i2) ->
-  i_cfg i1 = i_cfg i2 -> i_cli i1 = i_cli i2 -> project_dir i1 = project_dir i2 -> i_ford i1 = i_ford i2 ->
-  effective i1 = effective i2.
-Proof. intros H1 H2 H3 H4 H5. unfold effective. now rewrite H1, H2, H3, H4, H5. Qed.
+(* the part of ford.initialize that follows load_settings *)
+Definition after_load (i : input) (w0 : list str) (r : res (settings * list str)) : res (settings * list str) :=
+  do r <- r;
+  do st <- apply_cli (fst r) (i_cli i);
+  do st <- normalise_paths (project_dir i) (i_ford i) st;
+  do st <- finish_arguments st;
+  Ok (st, w0 ++ snd r).
+
+Lemma effective_unfold i :
+  effective i = let (cfg, w0) := drop_unknown (match i_cfg i with Some c => c | None => [] end) in
+                after_load i w0 (load_settings (i_lines i) (i_toml i) cfg).
+Proof. unfold effective, after_load. destruct (drop_unknown _). reflexivity. Qed.
+
+(* all keys are options: nothing is dropped *)
+Lemma drop_unknown_known kv : forallb (fun p => match field_ty (fst p) with Some _ => true | None => false end) kv = true ->
+  drop_unknown kv = (kv, []).
+Proof.
+  induction kv as [|[k v] kv IH]; intros H; [reflexivity|].
+  cbn [forallb fst] in H. apply andb_true_iff in H as [Hk H]. cbn [drop_unknown]. rewrite (IH H).
+  destruct (field_ty k); [reflexivity|discriminate].
+Qed.
+
+Lemma enc_toml_known kvs : Forall wt_typed kvs ->
+  forallb (fun p => match field_ty (fst p) with Some _ => true | None => false end) (enc_toml_all kvs) = true.
+Proof.
+  induction kvs as [|[k v] kvs IH]; intros W; [reflexivity|].
+  inversion W as [|? ? (t & Ht & _) Wr]; subst. cbn [fst] in Ht.
+  unfold enc_toml_all. cbn [map forallb fst]. rewrite Ht. now apply IH.
+Qed.
+
+Lemma kw_update_nil kw : kw_update kw [] = kw.
+Proof. reflexivity. Qed.
+
+Lemma kw_update_from_nil (kv : list (str * pv)) : nodup_strs (map fst kv) = true -> kw_update [] kv = kv.
+Proof. intros N. unfold kw_update. now rewrite (fold_aset_nodup kv [] N) by reflexivity. Qed.
+
+Lemma keys_enc_toml kvs : map fst (enc_toml_all kvs) = map fst kvs.
+Proof. unfold enc_toml_all. rewrite map_map. reflexivity. Qed.
+
+Lemma run_toml_known kvs : Forall wt_typed kvs ->
+  run_toml (enc_toml_all kvs) [] = do st <- construct (enc_toml_all kvs); Ok (st, []).
+Proof. intros W. unfold run_toml. now rewrite (drop_unknown_known _ (enc_toml_known kvs W)). Qed.
 
 (* any set of distinct, well-typed options (no bare-scalar lists, no file types: those are covered
    per option below) *)
@@ -1035,8 +1071,9 @@ Theorem md_toml_agree_simple i kvs :
   effective_md i kvs = effective_toml i kvs.
 Proof.
   intros W S. destruct (wt_options_typed kvs W) as [T N].
-  apply effective_load_eq; try reflexivity.
-  cbn [i_lines i_toml load_settings]. rewrite (run_markdown_enc kvs T N).
+  unfold effective_md, effective_toml. rewrite !effective_unfold.
+  cbn [i_cfg i_lines i_toml i_cli drop_unknown load_settings].
+  rewrite (run_markdown_enc kvs [] T N), kw_update_nil, (run_toml_known kvs T).
   now rewrite (conv_all_simple kvs S).
 Qed.
 
@@ -1120,9 +1157,10 @@ Proof.
   destruct (simple_value v) eqn:S.
   - apply md_toml_agree_simple; [exact Ws|]. cbn [forallb snd]. now rewrite S.
   - destruct (wt_options_typed _ Ws) as [T N].
-    apply effective_load_eq; try reflexivity.
-    cbn [i_lines i_toml load_settings]. rewrite (run_markdown_enc _ T N).
-    unfold run_toml, conv_all, enc_toml_all. cbn [map fst snd].
+    unfold effective_md, effective_toml. rewrite !effective_unfold.
+    cbn [i_cfg i_lines i_toml i_cli drop_unknown load_settings].
+    rewrite (run_markdown_enc _ [] T N), kw_update_nil, (run_toml_known _ T).
+    unfold conv_all, enc_toml_all. cbn [map fst snd].
     unfold wt_option in W. cbn [fst snd] in W.
     destruct (find_field project_schema k) as [f|] eqn:F; [|discriminate].
     destruct (find_field_name _ _ _ F) as [E Hin]. subst k.
@@ -1140,63 +1178,46 @@ Qed.
 Definition field_is (r : res (settings * list str)) (k : str) (v : pv) : bool :=
   match r with Ok (st, _) => pv_eqb (sget k st) v | _ => false end.
 
-(* ------------------------------------------------------------------ fpm.toml = --config, partially *)
+(* ------------------------------------------------------------------ fpm.toml = --config *)
 Lemma construct_defaults : construct [] = Ok post_defaults.
 Proof. vm_compute. reflexivity. Qed.
 
-Lemma run_markdown_empty : run_markdown [] = Ok (post_defaults, []).
-Proof. vm_compute. reflexivity. Qed.
+Lemma run_markdown_nil extra : run_markdown [] extra = do st <- construct (kw_update [] extra); Ok (st, []).
+Proof. reflexivity. Qed.
 
-(* for an option outside config_sensitive, __post_init__ neither changes nor reads the value *)
-Definition safe_ok (f : field) : Prop :=
-  sin (f_name f) config_sensitive = false ->
-  forall v, wt_value (f_name f) (f_ty f) v = true -> is_one v = false ->
-  construct [(f_name f, enc_toml v)] = Ok (sset (f_name f) (enc_toml v) post_defaults).
-
-Lemma safe_ok_all : Forall safe_ok project_schema.
+(* the --config options join the (empty) options of the file before the settings are built: every set
+   of distinct options, whatever the values, gives what the same table in fpm.toml gives *)
+Theorem toml_config_agree i kvs :
+  wt_options kvs = true -> effective_toml i kvs = effective_config i kvs.
 Proof.
-  unfold project_schema.
-  repeat (apply Forall_cons;
-          [unfold safe_ok; cbn [f_name f_ty]; intros S v W O;
-           first [ vm_compute in S; discriminate S
-                 | destruct v; try discriminate O; try discriminate W;
-                   cbn [enc_toml]; vm_compute; reflexivity ]|]).
-  apply Forall_nil.
+  intros W. destruct (wt_options_typed kvs W) as [T N].
+  unfold effective_toml, effective_config. rewrite !effective_unfold.
+  cbn [i_cfg i_lines i_toml i_cli]. rewrite (drop_unknown_known _ (enc_toml_known kvs T)).
+  cbn [drop_unknown load_settings]. rewrite (run_toml_known kvs T), run_markdown_nil.
+  rewrite kw_update_from_nil by (now rewrite keys_enc_toml). reflexivity.
 Qed.
 
-Theorem toml_config_agree_safe i k v :
-  wt_option (k, v) = true -> config_safe [(k, v)] = true ->
-  effective_toml i [(k, v)] = effective_config i [(k, v)].
-Proof.
-  intros W C. unfold config_safe in C. cbn [forallb fst snd] in C.
-  rewrite andb_true_r in C. apply andb_true_iff in C as [C1 C2]. apply negb_true_iff in C1, C2.
-  unfold wt_option in W. cbn [fst snd] in W.
-  destruct (find_field project_schema k) as [f|] eqn:F; [|discriminate].
-  destruct (find_field_name _ _ _ F) as [E Hin]. subst k.
-  pose proof safe_ok_all as A. rewrite Forall_forall in A. specialize (A f Hin C1 v W C2).
-  unfold effective_toml, effective_config, effective. cbn [i_lines i_toml i_cfg i_cli load_settings].
-  unfold run_toml, enc_toml_all. cbn [map fst snd]. rewrite A, run_markdown_empty.
-  cbn [bind fst snd]. unfold apply_config, overlay. cbn [fold_left fst snd]. reflexivity.
-Qed.
-
-(* the three formats, for one option *)
-Definition formats_agree_statement : Prop :=
-  forall i k v, wt_option (k, v) = true ->
-    effective_md i [(k, v)] = effective_toml i [(k, v)] /\
-    effective_toml i [(k, v)] = effective_config i [(k, v)].
-
-Theorem formats_agree_partial i k v :
-  wt_option (k, v) = true -> config_safe [(k, v)] = true ->
+(* the three formats, for every option of the schema and every well-typed value *)
+Theorem formats_agree i k v :
+  wt_option (k, v) = true ->
   effective_md i [(k, v)] = effective_toml i [(k, v)] /\
   effective_toml i [(k, v)] = effective_config i [(k, v)].
-Proof. intros W C. split; [now apply md_toml_agree_single|now apply toml_config_agree_safe]. Qed.
+Proof.
+  intros W. split; [now apply md_toml_agree_single|]. apply toml_config_agree.
+  unfold wt_options. cbn [forallb map nodup_strs fst sin]. now rewrite W.
+Qed.
+
+(* ... and for every set of distinct options *)
+Theorem formats_agree_sets i kvs :
+  wt_options kvs = true -> forallb (fun kv => simple_value (snd kv)) kvs = true ->
+  effective_md i kvs = effective_toml i kvs /\ effective_toml i kvs = effective_config i kvs.
+Proof. intros W S. split; [now apply md_toml_agree_simple|now apply toml_config_agree]. Qed.
 
 Definition demo_input : input :=
   mkinput [] None None [] (s "/work/elsewhere") (s "../proj") (s "/opt/ford").
 
 Example formats_agree_nonvacuous :
   wt_option (s "exclude_dir", VList [s "build"; s "../vendor/lib"]) = true /\
-  config_safe [(s "max_frontpage_items", VInt 4)] = true /\
   wt_option (s "alias", VDict [(s "a", s "b c"); (s "url", s "https://x.org/?q=1")]) = true /\
   wt_option (s "extra_filetypes", VFT [(s "cpp", s "//", None); (s "sh", s "#", Some (s "bash"))]) = true /\
   field_is (effective_md demo_input [(s "summary", VStr [s "first"; s "second"])])
@@ -1205,44 +1226,52 @@ Example formats_agree_nonvacuous :
            (s "src_dir") (PList [PPath (s "/work/proj/src")]) = true.
 Proof. repeat split; vm_compute; reflexivity. Qed.
 
-(* --config on a post-init-sensitive option: display is not lower-cased *)
-Theorem formats_agree_refuted : ~ formats_agree_statement.
-Proof.
-  intros H. destruct (H demo_input (s "display") (VList [s "Public"]) eq_refl) as [_ E].
-  vm_compute in E. discriminate E.
-Qed.
-
-(* --config with a bare string for a list option: one path per character *)
-Theorem config_scalar_list_refuted :
-  exists i k v, wt_option (k, v) = true /\
-    field_is (effective_toml i [(k, v)]) k (PList [PPath (s "/work/proj/s1")]) = true /\
-    field_is (effective_config i [(k, v)]) k
-             (PList [PPath (s "/work/proj"); PPath (s "/"); PPath (s "/work/proj/s"); PPath (s "/work/proj/1")]) = true.
-Proof.
-  exists demo_input, (s "src_dir"), (VOne (s "./s1")). repeat split; vm_compute; reflexivity.
-Qed.
+(* the inputs on which --config used to differ (recorded finding, repaired): kept as examples *)
+Example config_regressions :
+  field_is (effective_config demo_input [(s "display", VList [s "Public"])]) (s "display") (PList [PStr (s "public")]) = true /\
+  field_is (effective_config demo_input [(s "src_dir", VOne (s "./s1"))]) (s "src_dir") (PList [PPath (s "/work/proj/s1")]) = true /\
+  field_is (effective_config demo_input [(s "project_url", VStr [s "https://x.org"])]) (s "project_url") (PStr (s "https://x.org")) = true /\
+  field_is (effective_config demo_input [(s "output_dir", VStr [s "out"])]) (s "exclude_dir") (PList [PPath (s "/work/proj/out")]) = true.
+Proof. repeat split; vm_compute; reflexivity. Qed.
 
 (* ------------------------------------------------------------------ precedence *)
 Lemma apply_cli_one st k v t v' :
   field_ty k = Some t -> convert_setting t k v = Ok v' -> apply_cli st [(k, v)] = Ok (sset k v' st).
 Proof. intros T C. simpl. now rewrite T, C. Qed.
 
-(* command line over --config over file over default, field by field *)
-Theorem precedence st k t v v' c :
-  field_ty k = Some t -> convert_setting t k v = Ok v' -> aget k st <> None ->
-  (exists st', apply_cli (apply_config st [(k, c)]) [(k, v)] = Ok st' /\ sget k st' = v'
-               /\ forall k', k' <> k -> sget k' st' = sget k' st)
-  /\ apply_cli st [] = Ok st
-  /\ sget k (apply_config st [(k, c)]) = c
-  /\ apply_config st [] = st.
+Lemma aget_aset_same {V} k (v : V) m : aget k (aset k v m) = Some v.
 Proof.
-  intros T C H. repeat split.
-  - exists (sset k v' (sset k c st)). split; [now apply (apply_cli_one _ k v t)|]. split.
-    + apply sget_sset_same. unfold apply_config, overlay. simpl.
-      clear -H. induction st as [|[k2 w] st IH]; simpl in *; [congruence|].
-      destruct (seqb k k2) eqn:E; simpl; [now rewrite seqb_refl|]. rewrite E. now apply IH.
-    + intros k' N. now rewrite !sget_sset_other.
-  - unfold apply_config, overlay. simpl. now apply sget_sset_same.
+  induction m as [|[k' w] m IH]; simpl; [now rewrite seqb_refl|].
+  destruct (seqb k k') eqn:E; simpl; [now rewrite seqb_refl|now rewrite E].
+Qed.
+
+Lemma aget_aset_other {V} k k' (v : V) m : k' <> k -> aget k' (aset k v m) = aget k' m.
+Proof.
+  intros N. apply seqb_neq in N. induction m as [|[k2 w] m IH]; simpl.
+  - now rewrite N.
+  - destruct (seqb k k2) eqn:E; simpl.
+    + apply seqb_eq in E. subst k2. now rewrite N.
+    + destruct (seqb k' k2); [reflexivity|exact IH].
+Qed.
+
+(* command line over --config over file, field by field: the --config value replaces the file value
+   among the keyword arguments of ProjectSettings (everything else is left alone), and a command line
+   value replaces whatever field value the settings object has *)
+Theorem precedence st file k t v v' c :
+  field_ty k = Some t -> convert_setting t k v = Ok v' -> aget k st <> None ->
+  aget k (kw_update file [(k, c)]) = Some c
+  /\ (forall k', k' <> k -> aget k' (kw_update file [(k, c)]) = aget k' file)
+  /\ kw_update file [] = file
+  /\ (exists st', apply_cli st [(k, v)] = Ok st' /\ sget k st' = v'
+                   /\ forall k', k' <> k -> sget k' st' = sget k' st)
+  /\ apply_cli st [] = Ok st.
+Proof.
+  intros T C H. unfold kw_update. cbn [fold_left fst snd]. repeat split.
+  - apply aget_aset_same.
+  - intros k' N. now apply aget_aset_other.
+  - exists (sset k v' st). split; [now apply (apply_cli_one _ k v t)|]. split.
+    + now apply sget_sset_same.
+    + intros k' N. now apply sget_sset_other.
 Qed.
 
 Lemma defaults_as_map : defaults = map (fun f => (f_name f, f_default f)) project_schema.
@@ -1257,13 +1286,14 @@ Proof.
 Qed.
 
 Definition precedence_input : input :=
-  mkinput [s "output_dir: from_file"; s "graph: false"] None
-          (Some [(s "output_dir", PStr (s "from_config")); (s "graph", PBool false)])
+  mkinput [s "output_dir: from_file"; s "graph: false"; s "summary: from file"] None
+          (Some [(s "output_dir", PStr (s "from_config")); (s "graph", PBool false); (s "summary", PStr (s "from config"))])
           [(s "output_dir", PStr (s "from_cli")); (s "graph", PBool true)]
           (s "/work/proj") (s "") (s "/opt/ford").
 Example precedence_example :
   field_is (effective precedence_input) (s "output_dir") (PPath (s "/work/proj/from_cli")) = true /\
   field_is (effective precedence_input) (s "graph") (PBool true) = true /\
+  field_is (effective precedence_input) (s "summary") (PStr (s "from config")) = true /\
   field_ty (s "output_dir") = Some TPath /\
   convert_setting TPath (s "output_dir") (PStr (s "from_cli")) = Ok (PStr (s "from_cli")) /\
   aget (s "output_dir") post_defaults <> None.
@@ -1282,55 +1312,73 @@ Proof.
 Qed.
 
 (* project file: an unknown key is reported and dropped, everything else is unchanged *)
-Theorem unknown_key_dropped lines lines' u vs st w :
+Theorem unknown_key_dropped lines lines' extra u vs st w :
   field_ty u = None -> meta_preprocessor lines' = meta_preprocessor lines ++ [(u, vs)] ->
-  run_markdown lines = Ok (st, w) -> run_markdown lines' = Ok (st, w ++ [u]).
+  run_markdown lines extra = Ok (st, w) -> run_markdown lines' extra = Ok (st, w ++ [u]).
 Proof.
   intros U M R. unfold run_markdown in *. rewrite M, (convert_meta_unknown _ u vs U).
   destruct (convert_meta (meta_preprocessor lines)) as [[kv ws]| |]; simpl in *; try discriminate R.
   destruct (existsb include_like kv); [discriminate R|].
-  destruct (construct kv); simpl in *; try discriminate R. now injection R as -> ->.
+  destruct (construct (kw_update kv extra)); simpl in *; try discriminate R. now injection R as -> ->.
 Qed.
 
 Example unknown_key_example :
   field_ty (s "foo") = None /\
   meta_preprocessor [s "project: p"; s "foo: 1"] = meta_preprocessor [s "project: p"] ++ [(s "foo", [s "1"])] /\
-  (match run_markdown [s "project: p"], run_markdown [s "project: p"; s "foo: 1"] with
+  (match run_markdown [s "project: p"] [], run_markdown [s "project: p"; s "foo: 1"] [] with
    | Ok (st, []), Ok (st', [w]) => seqb w (s "foo") && pv_eqb (sget (s "project") st') (PStr (s "p"))
    | _, _ => false
    end) = true.
 Proof. repeat split; vm_compute; reflexivity. Qed.
 
-(* fpm.toml: an unknown key aborts with TypeError *)
-Theorem unknown_key_toml u X : find_field project_schema u = None ->
-  run_toml [(u, X)] = Err (s "TypeError") u true.
+(* fpm.toml and --config behave alike: an unknown key is reported and dropped *)
+Lemma drop_unknown_app a b :
+  drop_unknown (a ++ b) = (fst (drop_unknown a) ++ fst (drop_unknown b), snd (drop_unknown a) ++ snd (drop_unknown b)).
 Proof.
-  intros U. unfold run_toml, construct.
-  change (first_bad_key [(u, X)])
-    with (match find_field project_schema u with
-          | Some f => if f_init f then first_bad_key [] else Some u
-          | None => Some u
-          end).
-  now rewrite U.
+  induction a as [|[k v] a IH]; cbn [app drop_unknown].
+  - now destruct (drop_unknown b).
+  - rewrite IH. destruct (drop_unknown a) as [ka wa], (drop_unknown b) as [kb wb]. cbn [fst snd].
+    destruct (field_ty k); reflexivity.
 Qed.
 
-(* --config: an unknown key leaves no trace at all (no report) *)
-Theorem unknown_key_config i u X : aget u post_defaults = None ->
-  i_lines i = [] -> i_toml i = None -> i_cfg i = Some [(u, X)] ->
-  effective i = effective (mkinput [] None (Some []) (i_cli i) (i_cwd i) (i_dir i) (i_ford i)).
+Theorem unknown_key_toml kv1 kv2 extra u X : field_ty u = None ->
+  run_toml (kv1 ++ (u, X) :: kv2) extra =
+  do r <- run_toml (kv1 ++ kv2) extra;
+  Ok (fst r, snd (drop_unknown kv1) ++ u :: snd (drop_unknown kv2)).
 Proof.
-  intros U L T C.
-  assert (E : forall st, aget u st = None -> sset u X st = st).
-  { induction st as [|[k w] st IH]; cbn [sset aget]; [reflexivity|]. destruct (seqb u k); [discriminate|].
-    intros H. now rewrite IH. }
-  unfold effective. rewrite L, T, C. cbn [i_lines i_toml i_cfg i_cli i_ford load_settings].
-  rewrite run_markdown_empty. cbn [bind fst snd]. unfold apply_config, overlay. cbn [fold_left fst snd].
-  rewrite (E _ U). reflexivity.
+  intros U. unfold run_toml. rewrite !drop_unknown_app. cbn [drop_unknown]. rewrite U.
+  destruct (drop_unknown kv1) as [k1 w1], (drop_unknown kv2) as [k2 w2]. cbn [fst snd].
+  destruct (construct (kw_update (k1 ++ k2) extra)); reflexivity.
+Qed.
+
+Theorem unknown_key_config i c1 c2 u X st w : field_ty u = None ->
+  i_cfg i = Some (c1 ++ (u, X) :: c2) ->
+  effective (mkinput (i_lines i) (i_toml i) (Some (c1 ++ c2)) (i_cli i) (i_cwd i) (i_dir i) (i_ford i)) = Ok (st, w) ->
+  exists w', effective i = Ok (st, w') /\ In u w'.
+Proof.
+  intros U C R. rewrite effective_unfold in *. rewrite C. cbn [i_cfg i_lines i_toml i_cli i_ford] in *.
+  rewrite drop_unknown_app in *. cbn [drop_unknown]. rewrite U.
+  destruct (drop_unknown c1) as [k1 w1], (drop_unknown c2) as [k2 w2]. cbn [fst snd] in *.
+  unfold after_load, project_dir in *. cbn [i_cli i_ford i_cwd i_dir] in *.
+  destruct (load_settings (i_lines i) (i_toml i) (k1 ++ k2)) as [[s0 ws]| |]; cbn [bind] in *; try discriminate R.
+  cbn [fst snd] in *. destruct (apply_cli s0 (i_cli i)); cbn [bind] in *; try discriminate R.
+  destruct (normalise_paths _ _ a); cbn [bind] in *; try discriminate R.
+  destruct (finish_arguments a0); cbn [bind] in *; try discriminate R.
+  injection R as <- <-. eexists. split; [reflexivity|].
+  apply in_or_app. left. apply in_or_app. right. now left.
 Qed.
 
 Example unknown_key_examples :
-  find_field project_schema (s "foo") = None /\ aget (s "foo") post_defaults = None.
-Proof. split; vm_compute; reflexivity. Qed.
+  field_ty (s "foo") = None /\
+  (match run_toml [(s "project", PStr (s "p")); (s "foo", PInt 1)] [] with
+   | Ok (st, [w]) => seqb w (s "foo") && pv_eqb (sget (s "project") st) (PStr (s "p"))
+   | _ => false
+   end) = true /\
+  (match effective (mkinput [] None (Some [(s "foo", PInt 1); (s "project", PStr (s "p"))]) [] (s "/work/proj") (s "") (s "/opt/ford")) with
+   | Ok (st, [w]) => seqb w (s "foo") && pv_eqb (sget (s "project") st) (PStr (s "p"))
+   | _ => false
+   end) = true.
+Proof. repeat split; vm_compute; reflexivity. Qed.
 
 (* ------------------------------------------------------------------ ill-typed values *)
 (* project file, bool option: rejected, the message names the option *)
@@ -1357,13 +1405,19 @@ Proof.
   unfold parse_entry. now rewrite (Sp _ E).
 Qed.
 
+(* project file, int option: whatever int() rejects is rejected with a message naming the option *)
+Theorem ill_typed_md_int key x : py_int x = None ->
+  convert_setting TInt key (PList [PStr x]) = Err (s "ValueError") key true.
+Proof. intros H. unfold convert_setting. cbn [same_type]. unfold convert_to_int. now rewrite H. Qed.
+
 Example ill_typed_md_examples :
   convert_setting TBool (s "graph") (PList [PStr (s "maybe")]) = Err (s "ValueError") (s "graph") true /\
-  aget (s "alias") option_separators = Some [("=")%char].
-Proof. split; vm_compute; reflexivity. Qed.
+  aget (s "alias") option_separators = Some [("=")%char] /\
+  py_int (s "four") = None /\ py_int (s "1__0") = None /\ py_int (s "0x10") = None.
+Proof. repeat split; vm_compute; reflexivity. Qed.
 
 (* the full demand: whatever the format, a value that is not of the declared type is rejected with
-   a message naming the option *)
+   a message naming the option -- false for fpm.toml and --config, whose values are not checked *)
 Definition native (t : tyclass) (X : pv) : bool :=
   match t, X with
   | TBool, PBool _ | (TInt | TOptInt), PInt _ | (TStr | TOptStr | TPath | TOptPath), PStr _ => true
@@ -1374,13 +1428,10 @@ Definition native (t : tyclass) (X : pv) : bool :=
 
 Definition ill_typed_toml_statement : Prop :=
   forall k t X, field_ty k = Some t -> native t X = false ->
-    exists e, run_toml [(k, X)] = Err e k true.
+    exists e, run_toml [(k, X)] [] = Err e k true.
 Definition ill_typed_config_statement : Prop :=
   forall i k t X, field_ty k = Some t -> native t X = false -> i_cfg i = Some [(k, X)] ->
     exists e, effective i = Err e k true.
-Definition ill_typed_md_statement : Prop :=
-  forall k t vals r, field_ty k = Some t -> convert_setting t k (PList (map PStr vals)) = r ->
-    match r with Err _ _ named => named = true | _ => True end.
 
 Theorem ill_typed_refuted_toml : ~ ill_typed_toml_statement.
 Proof.
@@ -1389,8 +1440,8 @@ Proof.
 Qed.
 
 Theorem ill_typed_toml_witness :
-  field_is (run_toml [(s "max_frontpage_items", PStr (s "4"))]) (s "max_frontpage_items") (PStr (s "4")) = true /\
-  field_is (run_markdown [s "max_frontpage_items: 4"]) (s "max_frontpage_items") (PInt 4) = true.
+  field_is (run_toml [(s "max_frontpage_items", PStr (s "4"))] []) (s "max_frontpage_items") (PStr (s "4")) = true /\
+  field_is (run_markdown [s "max_frontpage_items: 4"] []) (s "max_frontpage_items") (PInt 4) = true.
 Proof. split; vm_compute; reflexivity. Qed.
 
 Theorem ill_typed_refuted_config : ~ ill_typed_config_statement.
@@ -1401,23 +1452,12 @@ Proof.
   vm_compute in E. discriminate E.
 Qed.
 
-Theorem ill_typed_refuted_md_int : ~ ill_typed_md_statement.
-Proof.
-  intros H.
-  specialize (H (s "max_frontpage_items") TInt [s "four"] _ eq_refl eq_refl). vm_compute in H. discriminate H.
-Qed.
-
-(* in general: any text that int() rejects gives an error that does not name the option *)
-Theorem md_int_error_unnamed key x : py_int x = None ->
-  convert_setting TInt key (PList [PStr x]) = Err (s "ValueError") key false.
-Proof. intros H. unfold convert_setting. cbn [same_type]. unfold convert_to_int. now rewrite H. Qed.
-
 (* ------------------------------------------------------------------ paths *)
 (* the working directory enters only through the project directory it designates *)
 Theorem paths_relative_to_project i i' :
   i_lines i = i_lines i' -> i_toml i = i_toml i' -> i_cfg i = i_cfg i' -> i_cli i = i_cli i' ->
   i_ford i = i_ford i' -> project_dir i = project_dir i' -> effective i = effective i'.
-Proof. intros H1 H2 H3 H4 H5 H6. apply effective_load_eq; auto. now rewrite H1, H2. Qed.
+Proof. intros H1 H2 H3 H4 H5 H6. unfold effective. now rewrite H1, H2, H3, H4, H5, H6. Qed.
 
 Example paths_example :
   project_dir (mkinput [] None None [] (s "/work/proj") (s "") (s "/opt/ford")) = s "/work/proj" /\
